@@ -2,6 +2,7 @@
 import random
 
 from exv.core import Report, run_cases
+from exv.crash import crash_child
 from exv.scen import index_child, flushvec_of, FLUSH_KINDS
 
 PID = 'C15'
@@ -58,11 +59,25 @@ def run(tier, seed, replay=None):
         rep.absorb(run_cases(index_child, [json.load(open(replay))['witness']['case']], watchdog=600))
     else:
         rep.absorb(run_cases(index_child, gen_cases(tier, seed), watchdog=300 if tier == 'quick' else 900), 'history')
+        # unclean restarts: the process is killed around the UTXO-batch commits / state puts of forward flushes; after restart and
+        # catch-up the undo window must be complete and a reorg of depth `limit` must succeed
+        from exv.props.c04 import crash_cases
+        rng = random.Random(seed * 7 + 1)
+        scs = []
+        for i in range(6 if tier == 'quick' else 30):
+            fk = ('allF', 'alt', 'random', 'sparseF', 'HrunF', 'none')[i % 6]
+            limit = (2, 3, 5)[i % 3]
+            scs.append({'sid': f'c15crash{seed}-{i}', 'wseed': rng.randrange(1 << 30), 'n0': rng.choice((8, 12)), 'colls': 0,
+                        'prefetch': rng.choice((2, 100)), 'reorg_limit': limit, 'flushkind': fk,
+                        'flushvec': flushvec_of(fk, random.Random(rng.randrange(1 << 30))), 'mode': 'forward', 'more': rng.randrange(1, 3),
+                        'a0': rng.choice((None, 5)), 'check_undo': True, 'probe_reorg': True,
+                        'only_labels': ('D:utxo:commit', 'D:utxo:put')})
+        rep.absorb(run_cases(crash_child, crash_cases(rep, 'thorough', seed, scs, 'forward'), watchdog=600), 'crash-restart case')
         c = rep.counters
         for name, minimum in {'undo_windows_checked': 150, 'opens_checked': 150, 'opens_that_pruned_undo': 5,
                               'ev_restart': 20, 'ev_restart_during_sync': 10, 'reorg_ranges': 60,
                               'ev_fork_beyond_window': 5, 'ev_forced_reorg_beyond_window': 3,
-                              'beyond_window_outcome_chainerror': 3}.items():
+                              'beyond_window_outcome_chainerror': 3, 'probe_reorgs_after_crash_restart': 25}.items():
             rep.floor(name, c[name], minimum)
     return rep.finish(
         rule='REORG_LIMIT in {1,2,3,5,50>chain} x how the window blocks were indexed (initial sync / one at a time while caught '
@@ -70,6 +85,7 @@ def run(tier, seed, replay=None):
              'sync) x probe reorg of depth limit, limit-1 (must succeed and match the reference model) and limit+1 (outcome '
              'only recorded: success or ChainError), natural or forced. Monitors: after every database open no undo key below '
              'height-limit+1 remains; at every observed catch-up an undo key exists for every height of the window; index '
-             'observables equal the reference model. distinct = (how/which/kind, flush kind, prefetch, limit, event word)',
+             'observables equal the reference model. Unclean restarts: forward scenarios are killed before/after every UTXO batch '
+             'commit and state put; after restart and catch-up the undo window must be complete and a depth-limit reorg must succeed. distinct = (how/which/kind, flush kind, prefetch, limit, event word)',
         min_distinct=1 if replay else 2,
         assumptions=['daemon heights are monotone in these histories (a daemon that moves to a shorter chain is covered by C03)'])
